@@ -140,7 +140,12 @@ func (p *Parser) Parse() (al align.Alignment, err error) {
 				aio.PrintMessage("TREE block is not supported in goalign nexus parser, see gotree nexus parser, skipping")
 				err = p.parseUnsupportedBlock()
 			case DATA:
-				// DATA/CHARACTERS BLOCK
+				// DATA/CHARACTERS BLOCK: only one per file (a second one would silently
+				// replace the sequences and the dimensions of the first)
+				if names != nil {
+					err = fmt.Errorf("several DATA/CHARACTERS blocks in the nexus file")
+					return
+				}
 				names, sequences, nchar, ntax, datatype, missing, gap, matchchar, err = p.parseData()
 			default:
 				// If an unsupported block is seen, we just skip it
